@@ -1148,6 +1148,19 @@ def handler (fn : String) : Option Handler :=
       oracle := fun a o => match run (do let a1 ← pv2; let b1 ← pv2; let a2 ← pv2; let b2 ← pv2; let n ← pv2; pure (a1, b1, a2, b2, n)) a with
         | some (a1, b1, a2, b2, n) => segSegNormalOracle a1 b1 a2 b2 n o
         | none => "skip bad-args" }
+  | "tm_section_m" => some {
+      model := fun a => run (do let m ← pmeshIn; let n ← pv3; let bias ← pf; let eps ← pf; pend
+                                pure (match Section.localSection m.pts m.tris n bias eps with
+                                  | none => "panic" | some .negative => "neg" | some .positive => "pos"
+                                  | some (.intersect v sg) => sg.foldl (fun s e => s ++ s!" {e.1} {e.2}") (s!"poly {fpts v} {sg.length}"))) a
+      oracle := fun a o => match run (do let m ← pmeshIn; let n ← pv3; let bias ← pf; let eps ← pf; pend; pure (m, n, bias, eps)) a with
+        | some (m, n, bias, eps) =>
+          if !(m.pts.all finite3 && finite3 n && FloatIO.isFinite bias && FloatIO.isFinite eps) then "skip nonfinite-input" else
+          let N := q3 n; let bi := q bias
+          if q eps < 0 then "skip negative-epsilon" else
+          if !nearR N.normSq 1 then "skip non-unit-normal" else
+          sectionOracle m (fun p => N.dot p - bi) (some (colourFloat n bias eps)) (q eps) (meshScale m bi) o
+        | none => "skip bad-args" }
   | "tm_split" => some {
       model := fun _ => some "oracle-only"
       oracle := fun a o => match run (do let m ← pmeshIn; let n ← pv3; let bias ← pf; let eps ← pf; pend; pure (m, n, bias, eps)) a with
